@@ -111,9 +111,10 @@ type FuncVC struct {
 }
 
 type axiomT struct {
-	name string
-	term string
-	syms map[string]bool
+	name  string
+	term  string
+	syms  map[string]bool
+	lemma bool // proved once per run from the axioms and lemmas before it (obligation lemma.<name>), then used like an axiom
 }
 
 func NewFuncVC(w *World, fn *ssa.Function, spec *FuncSpec) *FuncVC {
